@@ -210,9 +210,10 @@ func (p *peer) onEOF() {
 }
 
 type tcpWorld struct {
-	sc  *TCPScenario
-	rt  *simhook.Runtime
-	env *world.TCPEnv
+	cfgUpdates int
+	sc         *TCPScenario
+	rt         *simhook.Runtime
+	env        *world.TCPEnv
 
 	clients                       []*peer
 	servers                       []*peer // backend-side peers in accept order
@@ -479,7 +480,7 @@ func (w *tcpWorld) fireFaults() {
 				}
 			}
 		}
-		if due && strings.HasPrefix(f.Kind, "host-") {
+		if due && (strings.HasPrefix(f.Kind, "host-") || f.Kind == "config-update") {
 			// the controller applies membership changes one after the other: wait for the previous one
 			for _, t := range w.hostTasks {
 				if t.State != simhook.StDead {
@@ -565,6 +566,16 @@ func (w *tcpWorld) inject(f *TCPFault) bool {
 				w.pendingRemoved = append(w.pendingRemoved, removedHost{node: i, step: w.rt.Step, how: "OnSvcAllHostReplace without it"})
 			}
 		}
+		return true
+	case "config-update":
+		// an update of the service configuration that changes neither policy nor health check nor listener
+		if p == nil {
+			return false
+		}
+		w.cfgUpdates++
+		cfg := w.env.SvcConfigVariant(w.cfgUpdates)
+		tk := w.rt.Go("harness:config-update", func() { p.OnSvcConfigUpdate(cfg) })
+		w.hostTasks = append(w.hostTasks, tk)
 		return true
 	case "backend-down":
 		w.env.SetAccepting(f.Node, false)
